@@ -1,5 +1,76 @@
 // harness commands owned by the check of property C06 (see tools/props/C06.py)
-#[allow(unused_variables)]
+//
+// utrace <opts> <limit> <src>
+//   Compiles <src>, dumps the function tree exactly as `compile` does (`F`/`C`/`LN` lines), then runs
+//   the compiled function with the per-instruction trace of hook H4 and prints one line per
+//   dispatched instruction
+//     T <fiber> <fn> <pc> <opcode> <stack_len> <slot_base> <frames> <nhandlers> <hsize> <hframes> u:<slots>
+//   where <fn> is the index of the running function in the dumped tree (-1: not in the tree, e.g. a
+//   function of the core library), <hsize>/<hframes> are init_stack_size / frame_count of the
+//   innermost exception handler (0 0 when there is none) and u: lists the slots of the open-upvalue
+//   list of the running fiber in list order.  Followed by the usual O / R / M records.
+use std::collections::HashMap;
+
+use yarel::value::Value;
+use yarel::vm::verif_trace as vt;
+
+fn index_functions(
+    f: yarel::memory::Gc<yarel::object::ObjFunction>,
+    map: &mut HashMap<usize, usize>,
+    counter: &mut usize,
+) {
+    let idx = *counter;
+    *counter += 1;
+    map.insert(&*f as *const yarel::object::ObjFunction as usize, idx);
+    let chunk = f.chunk;
+    for c in chunk.constants.iter() {
+        if let Value::ObjFunction(g) = c {
+            index_functions(*g, map, counter);
+        }
+    }
+}
+
+fn cmd_utrace(args: &[&str], out: &mut Vec<String>) {
+    let o = crate::parse_opts(args[0]);
+    let limit: usize = args[1].parse().unwrap_or(100000);
+    let src = crate::unhex_str(args[2]);
+    let mut vm = crate::new_vm();
+    crate::setup(&o);
+    let function = match yarel::compiler::compile(&mut vm, src, None) {
+        Ok(f) => f,
+        Err(e) => {
+            crate::emit_result(out, &Err(e));
+            return;
+        }
+    };
+    let mut counter = 0;
+    crate::dump_function(function.as_gc(), out, &mut counter);
+    let mut map = HashMap::new();
+    let mut counter = 0;
+    index_functions(function.as_gc(), &mut map, &mut counter);
+    vt::set_tracing(true, limit);
+    let r = vm.execute(function, &[]);
+    vt::set_tracing(false, 0);
+    let mut ids = crate::Ids::new();
+    for s in vt::take_trace() {
+        let us: Vec<String> = s.open_upvalues.iter().map(|u| u.to_string()).collect();
+        let (hsize, hframes) = s.handlers.last().map(|h| (h.2, h.3)).unwrap_or((0, 0));
+        let f = map.get(&s.function).map(|i| *i as isize).unwrap_or(-1);
+        out.push(format!(
+            "T {} {} {} {} {} {} {} {} {} {} u:{}",
+            ids.id(s.fiber), f, s.pc, s.opcode, s.stack_len, s.slot_base, s.frames,
+            s.handlers.len(), hsize, hframes, us.join(",")
+        ));
+    }
+    crate::emit_result(out, &r);
+}
+
 pub fn dispatch(cmd: &str, args: &[&str], out: &mut Vec<String>) -> bool {
-    false
+    match cmd {
+        "utrace" => {
+            cmd_utrace(args, out);
+            true
+        }
+        _ => false,
+    }
 }
